@@ -545,6 +545,35 @@ def suite_ops(out, tier, seed, part=None):
                         out.fail({"kind": "rid", "op": op, "offset": off}, repr(res or exc), "InvalidResponseId")
         finally:
             raw.get_request_id = saved
+        # ---- community and version of the response: anything but the client's own is refused
+        class Answers(agent.CommunityAgent):
+            """conformant agent whose REPLY carries another community string / version field"""
+            reply_community, reply_version = None, None
+
+            def respond(self, data):
+                good = super().respond(data)
+                msg = ber.decode_all(good)
+                ver, comm, pdu = msg[2]
+                if self.reply_community is not None:
+                    comm = ("bytes", ber.OCTETS, self.reply_community)
+                if self.reply_version is not None:
+                    ver = ("int", ber.INT, self.reply_version)
+                return ber.encode(("seq", ber.SEQ, [ver, comm, pdu]))
+        for creds_cls, version in ((V2C, 1), (V1, 0)):
+            for comm in (b"other", b"public\xff", b"\x80public", b"pub\xfflic", b"publi", b"publicc", b"", b"PUBLIC", b"public\x00"):
+                ag = Answers(OPS_DB, version=version)
+                ag.reply_community = comm
+                out.case(("community", version, comm))
+                res, exc = attempt(Client("127.0.0.1", creds_cls("public"), sender=ag).get(OID("1.3.1.1.0")))
+                if exc is None:
+                    out.fail({"kind": "community", "version": version, "reply_community": comm.hex()}, repr(res), "refused (another community string)")
+            for other in (1 - version, 2, 3):
+                ag = Answers(OPS_DB, version=version)
+                ag.reply_version = other
+                out.case(("version", version, other))
+                res, exc = attempt(Client("127.0.0.1", creds_cls("public"), sender=ag).get(OID("1.3.1.1.0")))
+                if exc is None:
+                    out.fail({"kind": "version", "client": version, "reply_version": other}, repr(res), "refused (another protocol version)")
     # ---- C08: error-status x error-index
     if part in (None, "C08"):
         table = {getattr(E, n).IDENTIFIER: getattr(E, n) for n in dir(E) if isinstance(getattr(E, n), type)
